@@ -270,7 +270,8 @@ def zeros_like(
     return _apply_elem_wise_func(
         (a,),
         "zero",
-        ret_dtype=dtype or get_common_dtype_of_ary_or_scalars((a,)),
+        ret_dtype=(np.dtype(dtype) if dtype is not None
+                   else get_common_dtype_of_ary_or_scalars((a,))),
         pt_namespace="",
     )
 
